@@ -493,3 +493,22 @@ Proof.
     destruct (in_range I128 c) eqn:R; [|discriminate]. intros H. injection H as <-. cbn [coeff nfd].
     refine (conj E (conj B (conj _ R))). apply M. cbn. lia.
 Qed.
+
+(* the specification's rounded value is a nearest integer to value * 10^18, the even one on a tie *)
+Lemma spec_round_nearest num den : 0 < den ->
+  let r := rnd RHalfEven (num * 10 ^ 18) den in
+  2 * Z.abs (num * 10 ^ 18 - r * den) <= den /\ (2 * Z.abs (num * 10 ^ 18 - r * den) = den -> Z.even r = true).
+Proof.
+  intros Hd r. pose proof (Z.div_mod (num * 10 ^ 18) den ltac:(lia)) as Ed.
+  pose proof (Z.mod_pos_bound (num * 10 ^ 18) den Hd) as Hr.
+  set (N := num * 10 ^ 18) in *.
+  assert (Em : r = rnd RHalfEven (N / den * den + N mod den) den) by (unfold r; f_equal; lia).
+  rewrite rnd_floor_eq in Em by lia. unfold rnd_floor in Em. rewrite <- odd_rem2 in Em.
+  set (q := N / den) in *. set (m := N mod den) in *. clearbody r q m.
+  destruct (Z.eqb_spec m 0); [subst r; split; nia|].
+  destruct (Z.gtb_spec (2 * m) den); cbn [orb] in Em; [subst r; split; nia|].
+  destruct (Z.eqb_spec (2 * m) den); cbn [andb] in Em; [|subst r; split; nia].
+  destruct (Z.odd q) eqn:Od; subst r.
+  - split; [nia|]. intros _. rewrite Z.even_add, <- Z.negb_odd, Od. reflexivity.
+  - split; [nia|]. intros _. rewrite <- Z.negb_odd, Od. reflexivity.
+Qed.
